@@ -1,6 +1,6 @@
 (* C09 — one leader per round, no equivocation. Pinned statements only. *)
 From Coq Require Import List NArith Permutation Sorted.
-From HS Require Import GTac Node Proto Link NodeInv NodeLog NodeMakes Global GlobalMakes LeaderDefs Leader.
+From HS Require Import GTac Node Proto Link NodeInv NodeLog NodeMakes Global GlobalMakes LeaderDefs Leader LeaderVotesDefs NodeLeaderVotes GlobalLeaderVotes.
 Import ListNotations.
 Open Scope N_scope.
 
@@ -13,3 +13,18 @@ Check c09_no_equivocation : forall (c : Committee) (honest : N -> bool),
   NoDup (members c) -> 3 * byz_stake (stk c) (members c) honest < total (stk c) (members c) ->
   forall (g : gstate) (a : N), greachB c honest g -> honest a = true -> StronglySorted N.gt (s_makes (g a)).
 Print Assumptions c09_no_equivocation.
+
+
+Check c09_votes_for_leader : forall (c : Committee) (honest : N -> bool) (g : gstate) (a : N) d q j,
+  greach c honest g -> honest a = true -> In (HVote d q j) (s_hist (g a)) ->
+  dauthor d = Node.leader c (dround d).
+Print Assumptions c09_votes_for_leader.
+Check c09_votes_for_leader_any : forall (c : Committee) (g : gstate) (a : N) d q j,
+  greachL c g -> In (HVote d q j) (s_hist (g a)) -> dauthor d = Node.leader c (dround d).
+Print Assumptions c09_votes_for_leader_any.
+Check c09_flight_by_leader : forall (c : Committee) (g : gstate) (a : N) (b : Block),
+  greachL c g ->
+  In b (s_loopback (g a)) \/ In b (s_sync_pending (g a)) \/ In b (map snd (s_pw_pending (g a))) \/
+  In b (map snd (s_store (g a))) ->
+  b_author b = Node.leader c (b_round b).
+Print Assumptions c09_flight_by_leader.
